@@ -53,6 +53,10 @@ type vssRun struct {
 	H       kyber.Point // rabin second base
 	faults  []string
 	stats   map[string]bool
+	// sidExact: refSID reproduces the genuine session id
+	sidExact bool
+	// unsolicited: number of justifications the dealer signed without a complaint reaching its object
+	unsolicited int
 }
 
 func (r *vssRun) key(w string) string { return "C10/" + r.impl.name + "/" + w }
@@ -86,10 +90,30 @@ func (r *vssRun) onPoly(commits []kyber.Point, d gDeal) bool {
 // The harness cannot compute the (unexported) session id function, but every deal it builds announces
 // the id of the dealer's genuine deals, which is consistent exactly with the genuine content.
 func (r *vssRun) sidConsistent(d gDeal) bool {
+	if r.sidExact {
+		return bytes.Equal(d.SID, r.refSID(d.Commits, d.T))
+	}
 	if !bytes.Equal(d.SID, r.honest[0].SID) {
 		return true // not an id the harness can judge
 	}
 	return samePoints(d.Commits, r.honest[0].Commits) && d.T == r.honest[0].T
+}
+
+// refSID: the session id as both packages document it - the suite's hash over the dealer's key, the
+// verifiers' keys, the commitments and the little-endian threshold.  It is used only when it
+// reproduces the id of the dealer's genuine deals (sidExact), so a library that derives its ids in
+// another way falls back to the comparison with the genuine content above.
+func (r *vssRun) refSID(commits []kyber.Point, t uint32) []byte {
+	h := r.suite.Hash()
+	_, _ = r.dpub.MarshalTo(h)
+	for _, v := range r.vpub {
+		_, _ = v.MarshalTo(h)
+	}
+	for _, c := range commits {
+		_, _ = c.MarshalTo(h)
+	}
+	_, _ = h.Write([]byte{byte(t), byte(t >> 8), byte(t >> 16), byte(t >> 24)})
+	return h.Sum(nil)
 }
 
 func samePoints(a, b []kyber.Point) bool {
@@ -446,8 +470,21 @@ func (r *vssRun) deliverResponse(progress bool) {
 		r.stats["justification"] = true
 		// A Byzantine dealer may broadcast a second, different justification for the same complaint
 		// (an invalid one followed by the valid one, or the other way round): sign it by hand.
-		if second := rapid.SampledFrom([]string{"", "", "good", "good", "bad-share", "foreign-commitments", "extended-commitments"}).Draw(r.t, "jsecond"); second != "" && second != plan {
-			j2 := gJust{SID: append([]byte(nil), just.SID...), Index: just.Index, Deal: r.justDeal(int(just.Index), second)}
+		if second := rapid.SampledFrom([]string{"", "", "good", "good", "bad-share", "foreign-commitments", "extended-commitments", "as-dealt-outer-sid", "as-dealt-outer-sid"}).Draw(r.t, "jsecond"); second != "" && second != plan && (second != "as-dealt-outer-sid" || r.sent[just.Index] != nil) {
+			j2 := gJust{SID: append([]byte(nil), just.SID...), Index: just.Index}
+			if second == "as-dealt-outer-sid" {
+				// the dealer reveals exactly the (possibly inconsistent) deal it had sent, and labels the
+				// JUSTIFICATION with the session id that the revealed commitments and threshold really
+				// have: the id announced inside the deal is still not the one of its content
+				j2.Deal = r.sent[just.Index].clone()
+				j2.SID = r.refSID(j2.Deal.Commits, j2.Deal.T)
+				r.stats["as-dealt-justification"] = true
+				if !r.sidConsistent(j2.Deal) {
+					r.stats["as-dealt-justification-of-inconsistent-deal"] = true
+				}
+			} else {
+				j2.Deal = r.justDeal(int(just.Index), second)
+			}
 			j2.Sig, _ = schnorr.Sign(r.suite, r.dlong, r.impl.justHash(r.suite, j2))
 			if rapid.Bool().Draw(r.t, "jsecondfirst") {
 				r.justs = append(r.justs[:len(r.justs)-1], j2, r.justs[len(r.justs)-1])
@@ -507,6 +544,32 @@ func (r *vssRun) justDeal(idx int, plan string) gDeal {
 }
 
 func (r *vssRun) deliverJustification() {
+	// A Byzantine dealer does not need anybody's permission to sign a justification: for a verifier
+	// whose own complaint is pending (possibly under a session id the dealer's library object would
+	// refuse) it reveals the deal exactly as it was sent, labelled with the announced id or with the
+	// id its content really has.
+	var cands []int
+	for i := 0; i < r.n; i++ {
+		if st, has := r.views[i].resp[uint32(i)]; r.views[i].ready && r.sent[i] != nil && has && !st {
+			cands = append(cands, i)
+		}
+	}
+	if len(cands) > 0 && r.unsolicited < 3 && (len(r.justs) == 0 || rapid.IntRange(0, 3).Draw(r.t, "unsolicited") == 0) {
+		r.unsolicited++
+		i := cands[rapid.IntRange(0, len(cands)-1).Draw(r.t, "unsolicitedfor")]
+		j := gJust{Index: uint32(i), Deal: r.sent[i].clone()}
+		label := rapid.SampledFrom([]string{"announced-id", "id-of-content", "id-of-content"}).Draw(r.t, "unsolicitedsid")
+		if j.SID = append([]byte(nil), j.Deal.SID...); label == "id-of-content" {
+			j.SID = r.refSID(j.Deal.Commits, j.Deal.T)
+		}
+		j.Sig, _ = schnorr.Sign(r.suite, r.dlong, r.impl.justHash(r.suite, j))
+		r.justs = append(r.justs, j)
+		r.log("  dealer signs an unsolicited justification for idx %d revealing the deal as sent (%s)", i, label)
+		r.stats["unsolicited-justification"] = true
+		if !r.sidConsistent(j.Deal) {
+			r.stats["justification-reveals-inconsistent-deal"] = true
+		}
+	}
 	if len(r.justs) == 0 {
 		return
 	}
@@ -637,6 +700,7 @@ func c10History(t *rapid.T, ev *evProp, impl vssImpl) {
 		}
 		r.vers = append(r.vers, v)
 		r.honest = append(r.honest, r.dealer.GetDeal(i))
+		r.sidExact = bytes.Equal(r.refSID(r.honest[0].Commits, r.honest[0].T), r.honest[0].SID)
 		r.views = append(r.views, &vssView{resp: map[uint32]bool{}})
 		f := "honest"
 		if !allHonest && rapid.IntRange(0, 99).Draw(t, fmt.Sprintf("faulty%d", i)) < faultPct {
@@ -691,7 +755,7 @@ func c10History(t *rapid.T, ev *evProp, impl vssImpl) {
 		for k := 0; k < r.n*(r.n+1); k++ {
 			r.deliverResponse(true)
 		}
-		for k := 0; k < 2*len(r.justs)*r.n; k++ {
+		for k, rounds := 0, 2*(len(r.justs)+1)*r.n; k < rounds; k++ {
 			r.deliverJustification()
 		}
 		if rapid.Bool().Draw(t, "draintimeout") {
@@ -789,7 +853,7 @@ const c10Rule = "case = (variant Pedersen|Rabin, n in 3..6 verifiers, t in 2..n,
 	"then n..8n steps drawn from {deliver (or re-deliver) a deal, deliver a response V_i -> party of kind genuine / corrupted signature / other session id / foreign index / out-of-range index / inverted status / validly signed Byzantine complaint / validly signed Byzantine approval, deliver a justification (the dealer reveals the honest deal, share+1, self-consistent foreign commitments, another index' deal, or a bad threshold), SetTimeout at a party}. " +
 	"After EVERY step, on every party that holds a deal: certified => at least t valid approvals or correctly justified complaints in that party's accepted history and no incorrect justification processed; documented completeness (enough approvals, nothing outstanding => certified); certified => t approved deals reconstruct the committed secret; every library call must return an error exactly when the harness model says the message is invalid for that receiver, approvals only for deals that authenticate, carry this verifier's index, a threshold in range and a share on the committed polynomial. " +
 	"non-trivial = a faulty deal was processed, a complaint, a justification, a timeout or a Byzantine response occurred (or an all-honest run with n>3 or t<n); distinct = distinct history text" +
-	" Added after the sensitivity rounds: a second, different justification per complaint; plans extended-commitments and foreign-consistent (a deal for other commitments under the main session id: invalid since fix 27); approvers of I5 are those the certifying party accepted."
+	" Added after the sensitivity rounds: a second, different justification per complaint; plans extended-commitments and foreign-consistent (a deal for other commitments under the main session id: invalid since fix 27); approvers of I5 are those the certifying party accepted; session ids are recomputed by a harness reference (hash of dealer key, verifier keys, commitments, threshold) a justification may reveal the deal exactly as it was sent under an outer id matching its content, and the Byzantine dealer also signs unsolicited justifications for verifiers whose own complaint is pending."
 
 func TestC10_Pedersen(t *testing.T) {
 	ev := evFor("C10")
